@@ -13,7 +13,7 @@ MEASURES = ["degree", "retarded_degree", "advanced_degree",
 
 def _observe(kind, x, t, mvflag, tnone):
     from pyunicorn.timeseries import VisibilityGraph
-    o = {"exc": "", "adj": [], "m": {}}
+    o = {"exc": "", "adj": [], "m": {}, "vis": [], "vis1": []}
     x = np.array(x, dtype=float)
     vg, exc = enc.call(VisibilityGraph, x if np.isnan(x).any() else enc.represent(x, repr(list(x)))[0],
                        timings=None if tnone else enc.represent(t, repr(list(t)))[0],
@@ -23,6 +23,13 @@ def _observe(kind, x, t, mvflag, tnone):
         o["exc"] = "VisibilityGraph.__init__:" + exc
         return o
     o["adj"] = enc.ints(vg.adjacency)
+    n = vg.N
+    try:
+        o["vis"] = [[int(bool(vg.visibility(a, b))) for b in range(n)] for a in range(n)]
+        o["vis1"] = [[int(bool(v)) for v in vg.visibility_single(a)] for a in range(n)]
+    except Exception as ex:
+        o["exc"] = "visibility:" + type(ex).__name__
+        return o
     for m in MEASURES:
         if not hasattr(vg, m):
             continue
